@@ -175,7 +175,14 @@ impl<T> RawIterRange<T> {
 pub struct RawIter<T> {
     pub iter: RawIterRange<T>,
     pub items: usize,
+    /// R21: the buckets whose element has been dropped through this iterator, in order
+    pub drop_log: Ghost<Seq<int>>,
 }
+pub uninterp spec fn spec_needs_drop<T>() -> bool;
+#[verifier::external_body]
+pub fn needs_drop<T>() -> (r: bool)
+    ensures r == spec_needs_drop::<T>(),
+{ unimplemented!() }
 /// number of j in [0, hi) with p(j)
 pub open spec fn count_upto(p: spec_fn(int) -> bool, hi: int) -> nat
     decreases hi,
@@ -249,4 +256,39 @@ impl FullBucketsIndices {
     pub open spec fn rem_fn(&self) -> spec_fn(int) -> bool {
         |j: int| self.rem(j)
     }
+}
+
+impl<T> RawIter<T> {
+    pub fn into_iter(self) -> (r: RawIter<T>) ensures r == self { self }
+    // Bucket::drop (ptr::drop_in_place on the element): the bucket must hold a live element
+    #[verifier::external_body]
+    pub fn drop_bucket(&mut self, b: &Bucket<T>)
+        requires is_full(b.ptr as int), b.ptr < mem_nb(),
+        ensures
+            final(self).iter == old(self).iter, final(self).items == old(self).items,
+            final(self).drop_log@ == old(self).drop_log@.push(b.ptr as int),
+    { unimplemented!() }
+}
+/// the table as far as its drop path is concerned: the item count and the log of dropped buckets
+pub struct RawTableInner {
+    pub items: usize,
+    pub drop_log: Ghost<Seq<int>>,
+}
+impl RawTableInner {
+    pub open spec fn all_full(j: int) -> bool { 0 <= j < mem_nb() && is_full(j) }
+    // RawTableInner::iter: a RawIter over the whole table (RawIterRange::new over [0, buckets), items copied);
+    // its construction goes through Bucket::from_base_index and is evaluated natively
+    #[verifier::external_body]
+    pub fn iter<T>(&self) -> (r: RawIter<T>)
+        requires mem_ok(), self.items as nat == count_upto(|j: int| RawTableInner::all_full(j), mem_nb() + Group::WIDTH),
+        ensures r.wf(), r.items == self.items, r.drop_log@ == Seq::<int>::empty(),
+            forall|j: int| #[trigger] r.iter.rem(j) <==> RawTableInner::all_full(j),
+    { unimplemented!() }
+    #[verifier::external_body]
+    pub fn drop_bucket<T>(&mut self, b: &Bucket<T>)
+        requires is_full(b.ptr as int), b.ptr < mem_nb(),
+        ensures
+            final(self).items == old(self).items,
+            final(self).drop_log@ == old(self).drop_log@.push(b.ptr as int),
+    { unimplemented!() }
 }
